@@ -22,6 +22,9 @@ CONSTANTS
   Salts = {0, 1, 2, 3, 4, 5}
   DefaultLast = FALSE
   BareMaps = TRUE
+  NullKeys = FALSE
+  DupRules = FALSE
+  FlatOnly = FALSE
   MaxScopeMods = 2
   TableKinds = {"static", "file", "regexp", "regexp_repl", "scripted"}
   SenderCap = 99
